@@ -189,6 +189,9 @@ def run(ctx):
         from harness.common import run_demo
         run_demo(ctx, 'demo_cnetlearn.py', ['--n', 150 if ctx.tier == 'quick' else 2500, '--seed', ctx.seed], 'c18-learner-vs-model',
                  'the three cutset-network learners against the Lean learner machine replaying their decisions (tree, exact weights, leaf rows)', env_extra=None)
+        if ctx.n_new() == 0:
+            run_demo(ctx, 'demo_tr3.py', [1 + ctx.seed], 'c18-code-vs-generated-vs-model',
+                     'BinaryCNet.log_likelihood routing vs generated step vs cnetBatch', env_extra=dict(DEMO_SECTIONS='c'))
 
 
 def replay(rep):
